@@ -495,6 +495,17 @@ class Engine:
                 else:
                     yield st, vbool(z3.Or(v.t, r.t))
                 return
+        if self.spec_mode and is_num(v):
+            # in a contract `a and b` / `a or b` on numbers is compared by value only: build the ite
+            rest = ast.BoolOp(op=e.op, values=e.values[i + 1:]) if len(e.values) - i - 1 > 1 else e.values[i + 1]
+            outs = list(self.eval(rest, st))
+            if len(outs) == 1 and not isinstance(outs[0][1], Raised) and is_num(outs[0][1]) and outs[0][0] is st:
+                r = outs[0][1]
+                if REAL in (v.k, r.k):
+                    yield st, V(REAL, z3.If(c, as_real_term(v), as_real_term(r)))
+                else:
+                    yield st, V(INT, z3.If(c, as_int_term(v), as_int_term(r)))
+                return
         for s1, b in self.fork(st, c):
             yield s1, b
 
@@ -663,6 +674,12 @@ class Engine:
         if a.k == b.k and a.k in (INT, REAL, BOOL, STR):
             return V(a.k, z3.If(c, a.t, b.t))
         if is_num(a) and is_num(b) and BOOL not in (a.k, b.k):
+            if self.spec_mode:
+                return V(REAL, z3.If(c, as_real_term(a), as_real_term(b)))   # in a contract only the numeric value is compared
+        if self.spec_mode and is_num(a) and is_num(b):
+            if REAL in (a.k, b.k):
+                return V(REAL, z3.If(c, as_real_term(a), as_real_term(b)))
+            return V(INT, z3.If(c, as_int_term(a), as_int_term(b)))
             return None  # int vs float result: the kind matters, fork instead
         return None
 
@@ -693,6 +710,10 @@ class Engine:
                 if self.spec_mode and k == INT:
                     yield st, vint(floordiv_int(x, y) if op == "FloorDiv" else mod_int(x, y))
                     return
+                if self.spec_mode:
+                    q = z3.ToReal(z3.ToInt(x / y))
+                    yield st, vreal(q if op == "FloorDiv" else x - y * q)
+                    return
                 for s1, z in self.fork(st, y == 0):
                     if z:
                         yield s1, Raised("ZeroDivisionError")
@@ -701,6 +722,10 @@ class Engine:
                     else:
                         q = z3.ToReal(z3.ToInt(x / y))
                         yield s1, vreal(q if op == "FloorDiv" else x - y * q)
+                return
+            if op in ("LShift", "RShift") and a.k in (INT, BOOL) and b.k == INT and z3.is_int_value(simp(b.t)) and 0 <= simp(b.t).as_long() < 64:
+                n = 2 ** simp(b.t).as_long()
+                yield st, vint(as_int_term(a) * n if op == "LShift" else floordiv_int(as_int_term(a), z3.IntVal(n)))
                 return
             if op == "Pow":
                 raise ToolLimit("**")
@@ -1290,7 +1315,7 @@ class _CallMixin:
 
     # ---------------------------------------------------------------- builtins
     C_PRIMS = ("ck_i8", "ck_i16", "ck_i32", "ck_i64", "wrap_u8", "wrap_u16", "wrap_u32", "wrap_u64", "c_div", "c_mod", "i2f", "f_div",
-               "f2i_i8", "f2i_i16", "f2i_i32", "f2i_u8", "f2i_u16", "f2i_u32", "c_bitand", "str_of_int", "str_of_float2",
+               "f2i_i8", "f2i_i16", "f2i_i32", "f2i_u8", "f2i_u16", "f2i_u32", "c_bitand", "c_shl", "c_shr", "str_of_int", "str_of_float2",
                "str_substring")
 
     def call_c_prim(self, name, pos, st, node):
@@ -1300,6 +1325,10 @@ class _CallMixin:
         if name.startswith("ck_i"):
             bits = int(name[4:])
             v = as_int_term(pos[0])
+            if getattr(self, "assume_in_range", False):
+                st.assume(z3.And(v >= -(2 ** (bits - 1)), v <= 2 ** (bits - 1) - 1))
+                yield st, vint(v)
+                return
             self.oblige(st, f"rte/no-overflow-{name[3:]}#{site}", z3.And(v >= -(2 ** (bits - 1)), v <= 2 ** (bits - 1) - 1),
                         f"signed {bits}-bit result in range")
             yield st, vint(v)
@@ -1332,9 +1361,20 @@ class _CallMixin:
             x = as_real_term(pos[0])
             t = trunc_real(x)
             lo, hi = (-(2 ** (bits - 1)), 2 ** (bits - 1) - 1) if signed else (0, 2 ** bits - 1)
+            if getattr(self, "assume_in_range", False):
+                st.assume(z3.And(t >= lo, t <= hi))
+                yield st, vint(t)
+                return
             self.oblige(st, f"rte/float-to-int-{name[4:]}#{site}", z3.And(t >= lo, t <= hi), "float value representable in the integer type")
             yield st, vint(t)
             return
+        if name in ("c_shl", "c_shr"):
+            a, b = as_int_term(pos[0]), simp(as_int_term(pos[1]))
+            if z3.is_int_value(b) and 0 <= b.as_long() < 15:
+                # gcc/AVR: >> on a negative int is an arithmetic shift (floor); << is a multiplication (overflow is the caller's ck_)
+                yield st, vint(a * (2 ** b.as_long()) if name == "c_shl" else floordiv_int(a, z3.IntVal(2 ** b.as_long())))
+                return
+            raise ToolLimit("shift by a non-constant amount")
         if name == "c_bitand":
             a, b = as_int_term(pos[0]), simp(as_int_term(pos[1]))
             if z3.is_int_value(b) and (b.as_long() + 1) & b.as_long() == 0:
